@@ -295,6 +295,12 @@ impl Fdt {
             return true;
         }
 
+        if self.last_publish == Some(now) {
+            // A successor has already been published at this very instant
+            // (fdt_duration = 0 republished on every poll: read() never returned None)
+            return false;
+        }
+
         let duration = now
             .duration_since(self.last_publish.unwrap())
             .unwrap_or_default();
